@@ -1,6 +1,6 @@
 (* C29 — cover completeness for target riscv: reflection of the closure check on the regenerated table *)
 From Coq Require Import String List.
-From PV Require Import Spec.BurgCoverSpec Spec.IRTrees Spec.C29Known Model.BurgCover Proofs.C29_cover Gen.Tab_burg_riscv.
+From PV Require Import Spec.BurgCoverSpec Spec.IRTrees Spec.C29Known Model.BurgCover Model.C29Synth Proofs.C29_cover Gen.Tab_burg_riscv.
 Import ListNotations.
 Local Open Scope string_scope.
 
@@ -10,3 +10,7 @@ Proof. vm_compute. reflexivity. Qed.
 Theorem cover_complete_riscv : forall t,
   in_lang (irtrees desc_riscv excl_riscv) "S" t -> covers (usable assume_riscv rules_riscv) t "stm".
 Proof. exact (closure_ok_complete _ _ _ _ closure_riscv). Qed.
+
+(* the synthesized rules (UND<ty>, CALL, ASM) produce registers of the class the target maps the type to *)
+Lemma synth_classes_riscv : synth_bad desc_riscv clsnt_riscv synth_riscv = [] /\ synth_complete desc_riscv synth_riscv = true.
+Proof. split; vm_compute; reflexivity. Qed.
